@@ -1,4 +1,4 @@
-From Verif Require Import Model.Bytes Model.Obs Model.SMap Model.Cmd Model.Spec Model.Framing Model.Restore.
+From Verif Require Import Model.Bytes Model.Obs Model.SMap Model.Cmd Model.Spec Model.Framing Model.Restore Model.BackupGate.
 
 Definition okv2 (p : bytes * bytes) : obs := OL [obytes (fst p); obytes (snd p)].
 
@@ -23,3 +23,10 @@ Definition fr_model (c : frcase) : obs :=
   | None => ON (-1)%Z
   end.
 Definition fr_check (c : frcase) : bool := obs_eqb (fr_model c) (fr_impl c).
+
+(* the manifest gate of the backup client: per manifest position whether the file found matches its checksum;
+   observed: whether the run reported success, and per table whether its content was replaced *)
+Record bgcase := { bg_matches : list bool; bg_impl : obs }.
+Definition bg_model (c : bgcase) : obs :=
+  OL [obool (forallb (fun b => b) (bg_matches c)); OL (map obool (uploaded_flags (bg_matches c)))].
+Definition bg_check (c : bgcase) : bool := obs_eqb (bg_model c) (bg_impl c).
